@@ -146,9 +146,17 @@ func zzC08_routing() {
 	symAssert(errB == nil, "second registration succeeds")
 	callsB = 0
 	// the decided scenario
-	cancelA := symBool("cancelA")
+	cancelHow := symChoose("cancelA", 3) // 0: not cancelled; 1: Cancel; 2: Cancel with a context that is already done (shutdown path)
+	cancelA := cancelHow != 0
 	if cancelA && errA == nil {
-		symAssert(oA.Cancel(context.Background()) == nil, "cancel succeeds")
+		if cancelHow == 1 {
+			symAssert(oA.Cancel(context.Background()) == nil, "cancel succeeds")
+		} else {
+			dctx, dcancel := context.WithCancel(context.Background())
+			dcancel()
+			_ = oA.Cancel(dctx) // whatever it reports: once it has returned, the observation is over
+			symCover("cancelled-with-done-context")
+		}
 	}
 	which := symChoose("token", 3)
 	tok := []message.Token{tokA, tokB, tokC}[which]
